@@ -341,6 +341,12 @@ def aliasBinds (a : Alias) : Str :=
   | some n => n
   | none => firstDotted a.name
 
+/-- `from m import a [as b]` binds `b`, else `a` -/
+def aliasBindsFrom (a : Alias) : Str :=
+  match a.asname with
+  | some n => n
+  | none => a.name
+
 def withBinds : List (Expr × Option Expr) → List Str
   | [] => []
   | (c, v) :: r => bindsE c ++ bindsOpt v ++ withBinds r
@@ -361,7 +367,7 @@ def bindsS : Stmt → List Str
       bindsStmts body ++ bindsHandlers handlers ++ bindsStmts orelse ++ bindsStmts finalbody
   | .with_ items body => withBinds items ++ bindsStmts body
   | .import_ names => names.map aliasBinds
-  | .importFrom names => names.map aliasBinds
+  | .importFrom names => names.map aliasBindsFrom
   | .functionDef name a _ decorators => [name] ++ bindsArgs a ++ bindsList decorators
   | .classDef name bases kws _ decorators => [name] ++ bindsList bases ++ bindsKeywords kws ++ bindsList decorators
   | .return_ v => bindsOpt v
